@@ -79,7 +79,7 @@ def _wrappings(parts):
 
 def _assignments(coords, tier, k):
     kk = len(coords)
-    if tier == "thorough" and kk <= 3:
+    if tier == "thorough" and kk <= 2:
         return list(itertools.product(STYLES, repeat=kk))
     assigns = [tuple(["sync"] * kk), tuple(["async"] * kk), tuple(STYLES[i % 2] for i in range(kk)), tuple(STYLES[(i + 1) % 2] for i in range(kk))]
     if k == 3:
